@@ -1,3 +1,11 @@
 #!/bin/sh
 # Run the repository's pinned test suite (guard off - there are no hooks).
-cd /repo && PATH=/venv/bin:$PATH exec /venv/bin/python -m pytest -ra -q -p no:cacheprovider --timeout=900 --continue-on-collection-errors "$@"
+# The suite leaves infretis_data_<n>.txt files in its cwd; remove the new ones.
+cd /repo || exit 2
+before=$(ls infretis_data*.txt 2>/dev/null)
+PATH=/venv/bin:$PATH /venv/bin/python -m pytest -ra -q -p no:cacheprovider --timeout=900 --continue-on-collection-errors "$@"
+rc=$?
+for f in infretis_data*.txt; do
+  case " $before " in *"$f"*) ;; *) rm -f "$f";; esac
+done
+exit $rc
